@@ -144,6 +144,7 @@ def _anc(n):
 def run(ctx: Ctx) -> None:
     rule_eq_fields(ctx)
     tableau.rule_rowops(ctx)
+    tableau.rule_phase_combine(ctx)
     rule_fid_shape(ctx)
     ctx.floor("cmp.fields", 7)
     ctx.floor("own.rowops", 8)
